@@ -1,6 +1,6 @@
 import OrbitModel.Proofs.SnapshotCodec
 import OrbitModel.Proofs.SnapshotRT
-import OrbitModel.Proofs.GenEq
+import OrbitModel.Proofs.GenEqSnap
 import OrbitModel.Proofs.SnapshotRace
 import OrbitModel.Proofs.SnapshotRaceEx
 /-!
@@ -95,5 +95,8 @@ theorem pinned_tree_wrote_unloadable_snapshot (r tl : List Nat) (hr : r.length =
     encodeRecPinned r = [0, 0] ++ r ∧
     decodeRecs 1 (encodeRecsPinned [r] ++ tl) = some ([[]], r ++ tl) ∧
     encodeRec r = none ∧ encodeRecs [r] = none := pinned_frame_wraps r tl hr
+
+/-- `SaveSnapshot` in the Go text of this run reads heads, then length, then entries -/
+theorem read_order_tied_to_go_text : Gen.saveSnapshotOrder = Order.saveSnapshot := gen_saveSnapshot_order
 
 end Orbit.C13
